@@ -447,6 +447,41 @@ func c17CorsTable(c *core.Ctx) {
 			}
 		}
 		c.Check(R, "types.(*cors).isOriginAllowed/kinds+default-false", ia.Pos(), ok && deflt, keyf("handled kinds %v, unmatched ⇒ false: %v", setKeys(kinds), deflt))
+		// arm semantics: string ⇒ exact equality with the request origin; regexp ⇒ MatchString(origin); bool ⇒ the value
+		okStr, okRe := false, false
+		for _, r := range returnsIn(ia) {
+			if len(r.Stmt.Results) != 1 {
+				continue
+			}
+			e := ast.Unparen(r.Stmt.Results[0])
+			arm := ""
+			for _, f := range g.Facts() {
+				if f.Br.TypeSwitch != nil && f.Val && g.EdgeDominates(f.Br.B, f.Edge, r.Loc) {
+					if t := info.TypeOf(f.Br.Cond); t != nil {
+						arm = t.String()
+					}
+				}
+			}
+			switch arm {
+			case "string":
+				if be, isB := e.(*ast.BinaryExpr); isB && be.Op == token.EQL {
+					a, b := be.X, be.Y
+					if isLocal(info, b, paramName(ia, 0)) {
+						a, b = b, a
+					}
+					if isLocal(info, a, paramName(ia, 0)) {
+						if _, isId := ast.Unparen(b).(*ast.Ident); isId {
+							okStr = true
+						}
+					}
+				}
+			case "*regexp.Regexp":
+				if ce, isC := e.(*ast.CallExpr); isC && ia.CalleeKey(ce) == "regexp.(*Regexp).MatchString" && len(ce.Args) == 1 && isLocal(info, ce.Args[0], paramName(ia, 0)) {
+					okRe = true
+				}
+			}
+		}
+		c.Check(R, "types.(*cors).isOriginAllowed/string⇒origin==v,regexp⇒MatchString(origin)", ia.Pos(), okStr && okRe, keyf("string arm is exact equality: %v; regexp arm matches the request origin: %v", okStr, okRe))
 	}
 	if cc := c.Fn(R, "types.(*cors).configureCredentials"); cc != nil {
 		g := cc.Graph()
